@@ -46,6 +46,39 @@ def data_field(p):
     return None
 
 
+def condition_evals(f):
+    """Evaluations of the removal condition in wrapper f: [(site node in f, innermost shouldRemove call, function holding it,
+    argument sources as indices into f.params or None)]. A helper of the wrapper class that only returns the condition's
+    result counts as an evaluation at its call site."""
+    out = []
+    pidx = {p['id']: i for i, p in enumerate(f.params)}
+    for n in f.calls():
+        if f.call_obj(n) and data_field(path(f, f.call_obj(n))) == 'shouldRemove':
+            src = [pidx.get(root_var_id(path(f, a, resolve_refs=False))) for a in f.call_args(n)]
+            out.append((n, n, f, src, all(f.nodes[f.strip(a)].get('vk') == 'l' for a in f.call_args(n))))
+            continue
+        for g in f.callee_fns(n):
+            if g.cls != f.cls or g.id == f.id:
+                continue
+            inner = [m for m in g.calls() if g.call_obj(m) and data_field(path(g, g.call_obj(m))) == 'shouldRemove']
+            rets = g.return_nodes()
+            if len(inner) == 1 and len(rets) == 1 and g.strip_all_casts(g.kids(rets[0])[0]) == inner[0]:
+                gidx = {p['id']: i for i, p in enumerate(g.params)}
+                # helper parameter index -> wrapper parameter index through the call-site arguments
+                site_args = f.call_args(n)
+                src = []
+                for a in g.call_args(inner[0]):
+                    gi = gidx.get(root_var_id(path(g, a, resolve_refs=False)))
+                    if gi is None or gi >= len(site_args):
+                        src.append(None)
+                    else:
+                        src.append(pidx.get(root_var_id(path(f, site_args[gi], resolve_refs=False))))
+                lv = all(g.nodes[g.strip(a)].get('vk') == 'l' for a in g.call_args(inner[0])) and \
+                    all(f.nodes[f.strip(a)].get('vk') == 'l' for a in site_args if root_var_id(path(f, a, resolve_refs=False)) in pidx)
+                out.append((n, inner[0], g, src, lv))
+    return out
+
+
 def check_wrapper(ctx, tu, f, counter):
     entry = (f.entry, 0)
     # listener call
@@ -91,9 +124,9 @@ def check_wrapper(ctx, tu, f, counter):
             if counter:
                 check_threshold(ctx, f, c, role)
             else:
-                # condition: call of data->shouldRemove, evaluated once, lvalue args
+                # condition: the guard is (a helper returning) the call of data->shouldRemove
                 cn = f.strip_all_casts(c)
-                okc = f.is_call(cn) and f.call_obj(cn) and data_field(path(f, f.call_obj(cn))) == 'shouldRemove' and role == 'true'
+                okc = any(site == cn for (site, _, _, _, _) in condition_evals(f)) and role == 'true'
                 ctx.ob('C16.W1', f, 'the listener is removed exactly when the condition call returned true', bool(okc), where=f.nloc(c))
     if counter:
         decs = []
@@ -105,16 +138,20 @@ def check_wrapper(ctx, tu, f, counter):
         ctx.ob('C16.W1', f, 'the trigger count is decremented exactly once on every path', okd,
                detail='writes to the count: %s' % [(w['how'], f.nloc(w['node'])) for w in decs])
     else:
-        conds = [n for n in f.calls() if f.call_obj(n) and data_field(path(f, f.call_obj(n))) == 'shouldRemove']
-        okc = len(conds) == 1 and f.pos_postdominates(f.pos(conds[0]), entry)
-        ctx.ob('C16.W1', f, 'the condition is evaluated exactly once per trigger', okc, detail='%d evaluations' % len(conds))
-        if conds:
-            args = f.call_args(conds[0])
-            lv = all(f.nodes[f.strip(a)].get('vk') == 'l' for a in args)
-            got = [root_var_id(path(f, a, resolve_refs=False)) for a in args]
-            want = [p['id'] for p in f.params]
-            ctx.ob('C16.W1', f, 'the condition receives the trigger\'s arguments as lvalues (or none)', lv and (got == want or not args),
-                   detail='arguments %s' % [pstr(path(f, a)) for a in args])
+        evals = condition_evals(f)
+        okc = len(evals) == 1 and f.pos_postdominates(f.pos(evals[0][0]), entry)
+        ctx.ob('C16.W1', f, 'the condition is evaluated exactly once per trigger', okc, detail='%d evaluations' % len(evals))
+        if evals:
+            site, inner, g, src, lv = evals[0]
+            want = list(range(len(f.params)))
+            ctx.ob('C16.W1', f, 'the condition receives the trigger\'s arguments as lvalues (or none)', lv and (src == want or not src),
+                   detail='argument sources (indices of the trigger\'s arguments) %s' % src)
+            # a condition that accepts the trigger's arguments must get them (witness condition callable both ways)
+            dt = tu.tstr(f.d.get('clst')) if f.d.get('clst') is not None else f.clsq
+            if 'CondBothWays' in f.clsq and f.params:
+                ctx.ob('C16.W1', f, 'a condition that accepts the trigger\'s arguments is called with them (not with none)', src == want,
+                       detail='the witness condition is callable both with () and with the arguments; it was called with %d argument(s): a condition of that '
+                              'kind never sees the real arguments' % len(src), key_detail='arguments if accepted')
 
 
 def check_threshold(ctx, f, c, role):
